@@ -13,6 +13,8 @@ and high-precision arrays), the extra-domain map, base-form-operator data.
 
 Known findings (genuine collisions, see known_findings.json): F11b base-form-operator data
 (derivatives, function space) is not hashed; F11c metadata values 1 and "1" collide through str().
+The base form has three integrals that share their Index objects and meet them in different orders, so that
+the canonical index numbering of one integrand can be observed (not) to leak into another.
 """
 
 from __future__ import annotations
